@@ -6,12 +6,13 @@ Import-free, total, computable.  Everything is exact (`Rat` coordinates, `Int` v
 * `roundHalfEven` — numpy's `round`/`rint` (nearest integer, ties to the even one).
 * voxelisation exactly as `conversion.converters._make_voxels` / `neuron2voxels` compute it:
   `ix = round(p / pitch)`; `idx = ix − round(lo / pitch)`; `shape = ceil(hi/pitch) − floor(lo/pitch) + 1`;
-  voxels with an index outside `[0, shape)` are dropped; `counts=True` stores the number of points per voxel;
+  voxels with an index outside `[0, shape)` are dropped (together with their counts, and skipped by the
+  `vectors`/`alphas` loop); `counts=True` stores the number of points per voxel;
   `units = pitch · u`, `offset = lo / pitch · pitch · u` (`u` = the neuron's `units_xyz.magnitude`).
   A `VoxelNeuron` places voxel `i` at coordinate `offset + i · units` (`VoxelNeuron.bbox`, `.strip`).
 * `tangents` — `graph.converters.neuron2tangents`: one entry per non-root row whose parent is not at the same
   position, point = `child + (parent − child)/2`, vector = `child − parent` (un-normalised), squared length.
-* `kClip` — `k = min(n_points, k)` of `make_dotprops`;  `alpha` — `(s₁ − s₂) / (s₁ + s₂ + s₃)`.
+* `kClip` — `k = min(n_points, k)` of `make_dotprops`;  `alpha` — `(s₁ − s₂) / (s₁ + s₂ + s₃)`, `0` when the sum is `0`.
 -/
 namespace Navis.Voxel
 
@@ -101,17 +102,14 @@ def allIdx (g : Grid) (pts : List P3) : List I3 := pts.map (voxIdx g)
 /-- The filled voxels of the grid (`counts=False`: these cells are `True`). -/
 def filled (g : Grid) (pts : List P3) : List I3 := (dedup (allIdx g pts)).filter (inGrid g)
 
-/-- `counts=True` as documented: every filled voxel holds the number of points that fell into it. -/
+/-- `counts=True`: every filled voxel holds the number of points that fell into it (`cnt` from
+`np.unique(ix, return_counts=True)` is filtered with the same in-bounds mask as the voxels). -/
 def counts (g : Grid) (pts : List P3) : List (I3 × Nat) :=
   (filled g pts).map fun v => (v, (allIdx g pts).count v)
 
-/-- `counts=True` **as written**: `cnt` comes from `np.unique(ix, return_counts=True)` *before* the voxels outside
-the bounds are dropped and is not filtered with them, so `grid[vxl] = cnt` raises (`none`) as soon as one voxel is
-dropped — unless `cnt` has a single entry, which numpy broadcasts into the (then empty) selection. -/
-def countsAsWritten (g : Grid) (pts : List P3) : Option (List (I3 × Nat)) :=
-  if (filled g pts).length = (dedup (allIdx g pts)).length then some (counts g pts)
-  else if (dedup (allIdx g pts)).length = 1 then some (counts g pts)
-  else none
+/-- `vectors=True` / `alphas=True`: the voxels that receive a vector / an alpha value — the loop over the voxels of all
+points skips those outside the grid, so these are exactly the filled voxels. -/
+def vectorCells (g : Grid) (pts : List P3) : List I3 := (dedup (allIdx g pts)).filter (inGrid g)
 
 def gridSum (cs : List (I3 × Nat)) : Nat := (cs.map (·.2)).sum
 
@@ -173,14 +171,14 @@ def tangents (t : List Row) : Option (List Tangent) :=
 
 /-! ## point cloud → dotprops (`make_dotprops`) -/
 
-/-- Rows with a NaN coordinate (`none`) are dropped. -/
+/-- Rows with a non-finite coordinate (NaN or ±inf; `none`) are dropped. -/
 def finitePts (l : List (Option P3)) : List P3 := l.filterMap id
 
 /-- `k = min(n_points, k)`. -/
 def kClip (n k : Nat) : Nat := min n k
 
-/-- `alpha = (s[0] − s[1]) / sum(s)`. -/
-def alpha (s1 s2 s3 : Rat) : Rat := (s1 - s2) / (s1 + s2 + s3)
+/-- `alpha = (s[0] − s[1]) / sum(s)` where `sum(s) > 0`, else `0` (a neighbourhood whose points all coincide). -/
+def alpha (s1 s2 s3 : Rat) : Rat := if 0 < s1 + s2 + s3 then (s1 - s2) / (s1 + s2 + s3) else 0
 
 /-- Inertia ("scatter") matrix of a neighbourhood applied to a vector: `(Σᵢ cᵢ cᵢᵀ) w` with `cᵢ` the centred
 points. -/
